@@ -42,6 +42,7 @@ PLY_LEXER_API = {'input', 'token', 'clone', 'begin', 'push_state', 'pop_state', 
 
 def check(chk: Check) -> None:
     F = chk.facts
+    _FACTS_FOR_PLY[0] = F
     R1 = chk.rule('C11.R1', 'inventory of state that survives a call: attributes stored on the parser, on the shared '
                             'lexer object (from parser methods, lexer rules and grammar actions) and module-level '
                             'objects mutated by functions', floor=3)
@@ -122,7 +123,7 @@ def check(chk: Check) -> None:
                               (PARSER + '.list_names', need_rules, 'list_names')):
         fi = F.func(entry)
         selft = ('param', om.self_param(F, entry))
-        lex = ('attr', selft, 'lex')
+        lex = common.lexer_term(F, selft)
         src = ('param', fi.node.args.args[1].arg)
         paths = SymExec(F, fi).run()
         missing: Dict[str, List[str]] = {a: [] for a in need}
@@ -225,10 +226,17 @@ def check(chk: Check) -> None:
     _r6(chk, R6)
 
 
+_FACTS_FOR_PLY = [None]
+
+
 def _is_ply_call(e: Event, selft) -> bool:
     f = freeze(e.func)
-    return isinstance(f, tuple) and f and f[0] == 'attr' and isinstance(f[1], tuple) and f[1][:2] == ('attr', selft) \
-        and f[1][2] in ('lex', 'yacc') and f[2] in ('input', 'token', 'parse')
+    if not (isinstance(f, tuple) and f and f[0] == 'attr' and isinstance(f[1], tuple) and f[2] in ('input', 'token', 'parse')):
+        return False
+    if f[1][:2] == ('attr', selft) and f[1][2] in ('lex', 'yacc'):
+        return True
+    F_ = _FACTS_FOR_PLY[0] or common.CURRENT_FACTS[0]
+    return F_ is not None and f[1] in (common.lexer_terms(F_, selft) + common.parser_terms(F_, selft))
 
 
 def _module_state(chk: Check) -> List[Tuple[str, str, str]]:
@@ -261,7 +269,7 @@ def _module_state(chk: Check) -> List[Tuple[str, str, str]]:
                 tgt = None
                 if e.kind in ('store_sub', 'aug_sub', 'del_sub', 'store_attr', 'aug_attr'):
                     tgt = freeze(e.obj)
-                elif e.kind == 'call':
+                elif e.kind == 'call' and not e.d.get('inlined'):      # an inlined package method is judged by what its body does
                     f = freeze(e.func)
                     if isinstance(f, tuple) and f and f[0] == 'attr' and f[2] in MUTATORS:
                         tgt = f[1]
